@@ -250,7 +250,20 @@ fn mutate(ctx: &RunCtx, fix: &mut Fix, v: &mut Vec<Entry>, start: u64) {
         1 => { let e = fix.wrong_data_hash(h); put(v, e) }
         2 => { let e = fix.bit_flip(ctx, h); put(v, e) }
         3 => put(v, status_entry(StatusCode::NotFound.into(), "not_found")),
-        4 => put(v, status_entry(StatusCode::Invalid.into(), "invalid_status")),
+        4 => {
+            // a non-Ok status: with an empty body, or (status and body vary independently) with
+            // the honest header of that height as its body — flagged not-Ok, so never a header
+            if ctx.coin("byz.status_with_body", 500) {
+                let mut e = fix.honest(h);
+                e.resp.status_code = if ctx.coin("byz.status_unknown", 400) { 1000 + ctx.range("byz.status_code", 0, 500) as i32 } else { StatusCode::Invalid.into() };
+                e.label = Label::Invalid;
+                e.header = None;
+                e.what = "non_ok_status_with_valid_body";
+                put(v, e)
+            } else {
+                put(v, status_entry(StatusCode::Invalid.into(), "invalid_status"))
+            }
+        }
         5 => { let f = fix.fork_header(h); put(v, ok_entry(&f, Label::Valid, "fork")) }
         6 => { let f = fix.foreign_header(h); put(v, ok_entry(&f, Label::Valid, "foreign_chain")) }
         7 => { let e = fix.foreign_unsigned(h); put(v, e) }
